@@ -542,6 +542,81 @@ theorem open_establishes_invariant (H : Nat → Id) (cw : Perm → Bool) (hcw : 
   subst hd
   exact ⟨root, by rw [hroot]; exact hauth⟩
 
+/-! ## `addRaw_never_panics` for every reachable state (closes its former hypothesis) -/
+
+/-- every attached change's previous ids are attached -/
+def PrevsAttached (t : TreeSt) : Prop :=
+  ∀ c ∈ t.attached, ∀ pid ∈ c.prev, hasId t.attached pid = true
+
+/-- what a delivered batch can do to the attached set: nothing, or exactly `Tree.Add` -/
+theorem addRaw_attached_shape (H : Nat → Id) (cw : Perm → Bool) (keep : Bool) (l : Log) (t : TreeSt)
+    (batch : List Raw) :
+    (addRaw H cw keep l t batch).2.2 = t ∨
+    ∃ new, (addRaw H cw keep l t batch).2.2.attached = (treeAdd t.attached new).attached := by
+  unfold addRaw
+  split
+  · left; rfl
+  · left; rfl
+  · rename_i new hne hnew
+    split
+    · left; rfl
+    · simp only
+      split
+      · left; rfl
+      · split
+        · left; rfl
+        · right; exact ⟨new, rfl⟩
+    · simp only
+      split
+      · left; rfl
+      · have inv := addInv_treeAdd t.attached new
+        split
+        · left
+          simp only [rollback]
+          rw [inv.att_eq, rollback_filter _ _ inv.added_fresh]
+        · right; exact ⟨new, rfl⟩
+
+/-- one delivered batch — accepted, rejected, rolled back, or rebuilt — preserves `PrevsAttached` -/
+theorem addRaw_preserves_prevsAttached (H : Nat → Id) (cw : Perm → Bool) (keep : Bool) (l : Log) (t : TreeSt)
+    (batch : List Raw) (h : PrevsAttached t) : PrevsAttached (addRaw H cw keep l t batch).2.2 := by
+  rcases addRaw_attached_shape H cw keep l t batch with ht | ⟨new, hatt⟩
+  · rw [ht]; exact h
+  · have inv := addInv_treeAdd t.attached new
+    intro c hc pid hp
+    rw [hatt] at hc ⊢
+    rw [inv.att_eq] at hc
+    rcases List.mem_append.mp hc with hc | hc
+    · rw [inv.att_eq, hasId_append, h c hc pid hp]; rfl
+    · exact inv.prevs c hc pid hp
+
+/-- `PrevsAttached` in every reachable state: any sequence of delivered batches and ACL growth -/
+theorem reachable_prevsAttached (H : Nat → Id) (cw : Perm → Bool) (keep : Bool) (steps : List Step) (s : Sys)
+    (hinv : PrevsAttached s.tree) : PrevsAttached (Sys.run H cw keep s steps).tree := by
+  induction steps generalizing s with
+  | nil => exact hinv
+  | cons st rest ih =>
+    simp only [Sys.run, List.foldl_cons]
+    cases st with
+    | add b => exact ih ⟨s.log, _⟩ (addRaw_preserves_prevsAttached H cw keep s.log s.tree b hinv)
+    | growAcl m => exact ih ⟨s.log ++ m, s.tree⟩ hinv
+
+/-- a freshly opened tree over a root without previous ids (`NewChangeFromRoot` sets none) satisfies it -/
+theorem open_prevsAttached (H : Nat → Id) (cw : Perm → Bool) (keep : Bool) (l : Log) (root : Raw) (t : TreeSt)
+    (h : openTree H cw keep l root = .ok t) (hroot : ∀ c ∈ t.attached, c.prev = []) : PrevsAttached t := by
+  intro c hc pid hp
+  rw [hroot c hc] at hp
+  cases hp
+
+/-- **addRaw_never_panics_reachable.** The nil dereference of `validateChange` (`tree.attached[id]` for
+a previous id) is unreachable along EVERY history: open a tree over a root without previous ids, let
+any sequence of batches arrive interleaved with any ACL growth, then deliver any further batch — the
+model's `.panic` outcome never occurs. The hypothesis `hwf` of `addRaw_never_panics` is discharged by
+the invariant `reachable_prevsAttached`. -/
+theorem addRaw_never_panics_reachable (H : Nat → Id) (cw : Perm → Bool) (keep : Bool) (steps : List Step) (s : Sys)
+    (hinv : PrevsAttached s.tree) (batch : List Raw) :
+    (addRaw H cw keep (Sys.run H cw keep s steps).log (Sys.run H cw keep s steps).tree batch).1 ≠ .err .panic :=
+  addRaw_never_panics H cw keep _ _ (reachable_prevsAttached H cw keep steps s hinv) batch
+
 /-- **whole-tree admission.** A tree offered as root + changes + claimed heads
 (`ValidateRawTreeDefault`, the path by which a tree received from a peer is admitted) is accepted
 only if every change of the resulting tree, the root included, is authentic and authorised — even
@@ -675,5 +750,12 @@ example : (addRaw Ex.H cwGen false Ex.log Ex.t0 [Ex.x, Ex.y]).1 = .ok ∧
 example : addRaw Ex.H cwGen false Ex.log Ex.t0 [Ex.x, Ex.yBad] = (.err .noPerm, [], Ex.t0) := by decide
 example : (Ex.log.map (·.id)).Nodup := by decide
 example : Function.Injective Ex.H := fun _ _ h => h
+-- the premise of `addRaw_never_panics_reachable` is met by the opened example tree (and by the grown one)
+example : PrevsAttached Ex.t0 := open_prevsAttached Ex.H cwGen false Ex.log Ex.rootRaw Ex.t0 rfl (by decide)
+example : PrevsAttached Ex.t1 := by
+  have h := addRaw_preserves_prevsAttached Ex.H cwGen false Ex.log Ex.t0 [Ex.a]
+    (open_prevsAttached Ex.H cwGen false Ex.log Ex.rootRaw Ex.t0 rfl (by decide))
+  have e : (addRaw Ex.H cwGen false Ex.log Ex.t0 [Ex.a]).2.2 = Ex.t1 := by decide
+  rw [e] at h; exact h
 
 end AnySync.Auth
